@@ -1822,17 +1822,23 @@ fn process_case(e: &Env, c: &Case, wi: usize, report: &mut Report, only_cell: Op
         report.engine_errors.push(format!("{name}: {p}"));
         return;
     }
-    let cells = cells_of(e, c);
+    let mut cells = cells_of(e, c);
     let reached = if c.need_baseline {
         let b = execute(c, None);
         if !b.ok {
             report.label(&format!("unreached:{name}"));
             report.label(&format!("unreached-why:{name}:{:?}", b.err));
-            report.add_extra("cells_unreached", cells.len() as u64);
-            return;
+            // the entitled call does not go through in this state: the substitution cells would be vacuous, but a
+            // WRONG signer being accepted is a violation whether or not the entitled one is (e.g. a frozen account
+            // that obeys another role than the group admin), so the signer cells are still evaluated
+            let n0 = cells.len();
+            cells.retain(|x| x.kind == "signer" && x.must_fail);
+            report.add_extra("cells_unreached", (n0 - cells.len()) as u64);
+            false
+        } else {
+            report.label(&format!("reached:{name}"));
+            true
         }
-        report.label(&format!("reached:{name}"));
-        true
     } else {
         report.label(&format!("no-baseline-by-design:{name}"));
         false
